@@ -199,6 +199,11 @@ func (s *session) do(c *Call) (res []interface{}) {
 			return errRes(err)
 		}
 		return []interface{}{"val", s.vm.abstract(v)}
+	case "compact":
+		if err := s.be.db.Compact(nil, nil); err != nil {
+			return errRes(err)
+		}
+		return ok
 	case "has":
 		h, err := s.be.db.Has(k)
 		if err != nil {
@@ -406,6 +411,7 @@ func cmdRandom(args []string) {
 	dir := fs.String("dir", "", "scratch dir")
 	values := fs.String("values", "small", "")
 	nvals := fs.Int("nvals", 3, "")
+	versions := fs.Int("versions", 0, "systematic write histories of this length on one key instead of random calls")
 	fs.Parse(args)
 	log.Global.SetOutput(io.Discard)
 	bes := openBackends(*dir, nil)
@@ -415,7 +421,11 @@ func cmdRandom(args []string) {
 	must(err)
 	bw := bufio.NewWriter(w)
 	enc := json.NewEncoder(bw)
-	rk := func() []int { // keys of length 1..3
+	hot := [][]int{{1}, {2, 3}, {2, 4, 4}}
+	rk := func() []int { // keys of length 1..3; half of the time one of three hot keys (histories need several writes to ONE key)
+		if r.Intn(2) == 0 {
+			return append([]int{}, hot[r.Intn(len(hot))]...)
+		}
 		k := make([]int, 1+r.Intn(3))
 		for i := range k {
 			k[i] = 1 + r.Intn(4)
@@ -431,12 +441,43 @@ func cmdRandom(args []string) {
 	}
 	disagreements := 0
 	total := 0
+	// -versions L: instead of random calls, EVERY write history of length 1..L on one key (direct put of two values, direct
+	// delete, and the same three through a batch: queue, write, reset), followed by a compaction and the observations get / has /
+	// iterate: what the engine keeps internally about overwritten versions and tombstones must never show through the interface
+	var plans [][]Call
+	if *versions > 0 {
+		key := []int{2, 3}
+		mk := func(op string, b, v int) Call { return Call{Op: op, B: b, K: key, V: v, P: []int{}, S: []int{}} }
+		nk := func(op string, b int) Call { return Call{Op: op, B: b, K: []int{}, P: []int{}, S: []int{}} }
+		macros := [][]Call{
+			{mk("put", 0, 0)}, {mk("put", 0, 1)}, {mk("del", 0, 0)},
+			{mk("bput", 1, 0), nk("write", 1), nk("reset", 1)}, {mk("bput", 1, 1), nk("write", 1), nk("reset", 1)}, {mk("bdel", 1, 0), nk("write", 1), nk("reset", 1)},
+		}
+		obsv := []Call{nk("compact", 0), mk("get", 0, 0), mk("has", 0, 0), {Op: "iter", K: []int{}, P: []int{2}, S: []int{}}}
+		var rec func(prefix []Call, left int)
+		rec = func(prefix []Call, left int) {
+			if len(prefix) > 0 {
+				plans = append(plans, append(append([]Call{}, prefix...), obsv...))
+			}
+			if left == 0 {
+				return
+			}
+			for _, m := range macros {
+				rec(append(append([]Call{}, prefix...), m...), left-1)
+			}
+		}
+		rec(nil, *versions)
+		*n = len(plans)
+	}
 	for t := 0; t < *n; t++ {
 		// generate the call sequence once, within the interface contract (mirrors the guards of KV.tla)
 		written := map[int]bool{}
 		qlen := map[int]int{}
 		var calls []Call
-		for len(calls) < *depth {
+		if plans != nil {
+			calls = plans[t]
+		}
+		for plans == nil && len(calls) < *depth {
 			c := Call{K: []int{}, P: []int{}, S: []int{}}
 			b := 1 + r.Intn(2)
 			switch x := r.Intn(20); {
@@ -448,6 +489,9 @@ func cmdRandom(args []string) {
 				c.Op, c.K = "get", rk()
 			case x < 5:
 				c.Op, c.K = "has", rk()
+				if r.Intn(3) == 0 {
+					c = Call{Op: "compact", K: []int{}, P: []int{}, S: []int{}}
+				}
 			case x < 7:
 				c.Op, c.P, c.S = "iter", rp(), rp()
 			case x < 11:
@@ -543,6 +587,8 @@ func main() {
 		cmdReplay(os.Args[2:])
 	case "random":
 		cmdRandom(os.Args[2:])
+	case "atomic":
+		cmdAtomic(os.Args[2:])
 	default:
 		os.Exit(2)
 	}
